@@ -794,3 +794,62 @@ Example C01_example_lu_branch_backward_error :
        let s := fold_left (fun s k => (s - nth k x 0 * nth (i * 3 + k) m 0)%float) (rev (seq (S i) (3 - S i))) (nth i y 0%float) in
        B2Rf s / B2Rf (nth (i * 3 + i) m 0%float) = 0 \/ / 2 ^ 1022 <= Rabs (B2Rf s / B2Rf (nth (i * 3 + i) m 0%float))).
 Proof. exact solve_lu_branch_example. Qed.
+
+(** ** Tie A, fourth round: the linear-system entry points of src/linalg/utils.rs are the source (regenerated on every run by
+    tools/tiea/solve_loops.py).  Like Model/Solve.v, the generated text is parametric in the factorisation routines it calls;
+    the equalities hold for EVERY routines [try_chol], [chol_solve], [lu], [lu_solve] (the pivot vector [Vec<i32>] of the source
+    is converted at the boundary: [lu_zs], [lu_solve_zs]), hence for the models of C11 that Model/SolveInst.v plugs in
+    ([slice_solve], [slice_solve_sys], [slice_invert]: the terms C01's theorems and the correspondence are about).  The layout
+    conversions write a copy of their argument in place: they are the transposes the model writes, for every input. *)
+From Compute Require Import Model.Solve Model.SolveInst Generated.solve_loops Proofs.TieA_solve_loops.
+Local Close Scope R_scope.
+Theorem C01_model_is_source_row_to_col_major :
+  forall (T : Type) (O : Ops T) (a : list T) (nr : nat),
+    src_row_to_col_major O (is_matrix_zs (T := T)) a (Z.of_nat nr) = row_to_col_major O a nr.
+Proof. exact @tiea_row_to_col_major. Qed.
+Theorem C01_model_is_source_col_to_row_major :
+  forall (T : Type) (O : Ops T) (a : list T) (nr : nat),
+    src_col_to_row_major O (is_matrix_zs (T := T)) a (Z.of_nat nr) = col_to_row_major O a nr.
+Proof. exact @tiea_col_to_row_major. Qed.
+Theorem C01_model_is_source_solve :
+  forall (T : Type) (O : Ops T) (try_chol : list T -> option (option (list T))) (chol_solve : list T -> list T -> option (list T))
+         (lu : list T -> option (list T * list nat)) (lu_solve : list T -> list nat -> list T -> option (list T)) (a b : list T),
+    src_solve O (is_positive_definite O) try_chol chol_solve (lu_zs lu) (lu_solve_zs lu_solve) a b
+    = solve O try_chol chol_solve lu lu_solve a b.
+Proof. exact @tiea_solve. Qed.
+Theorem C01_model_is_source_solve_sys :
+  forall (T : Type) (O : Ops T) (try_chol : list T -> option (option (list T))) (chol_solve : list T -> list T -> option (list T))
+         (lu : list T -> option (list T * list nat)) (lu_solve : list T -> list nat -> list T -> option (list T)) (a b : list T),
+    src_solve_sys O (is_square_z (A := T)) (is_matrix_zs (T := T)) (is_positive_definite O) try_chol chol_solve (lu_zs lu) (lu_solve_zs lu_solve) a b
+    = solve_sys O try_chol chol_solve lu lu_solve a b.
+Proof. exact @tiea_solve_sys. Qed.
+(** [vec![1.; n]] passes the allocation's capacity check: [n * n = len(matrix)] *)
+Theorem C01_model_is_source_invert_matrix :
+  forall (T : Type) (O : Ops T) (try_chol : list T -> option (option (list T))) (chol_solve : list T -> list T -> option (list T))
+         (lu : list T -> option (list T * list nat)) (lu_solve : list T -> list nat -> list T -> option (list T)) (m : list T),
+    (Z.of_nat (length m) <= 1152921504606846975)%Z ->
+    src_invert_matrix O (is_square_z (A := T)) (is_matrix_zs (T := T)) (is_positive_definite O) try_chol chol_solve (lu_zs lu) (lu_solve_zs lu_solve)
+                      (fun dg => Some (diag_matrix O dg)) m
+    = invert_matrix O try_chol chol_solve lu lu_solve m.
+Proof. exact @tiea_invert_matrix. Qed.
+(** at the routines of C11 (Model/SolveInst.v): the terms the theorems above and the correspondence are about *)
+Theorem C01_model_is_source_slice_solve_sys :
+  forall (T : Type) (O : Ops T) (a b : list T),
+    src_solve_sys O (is_square_z (A := T)) (is_matrix_zs (T := T)) (is_positive_definite O) (try_cholesky O) (cholesky_solve O)
+                  (lu_zs (Model.LU.lu O)) (lu_solve_zs (Model.LU.lu_solve O)) a b
+    = slice_solve_sys O a b.
+Proof. intros. apply tiea_solve_sys. Qed.
+Theorem C01_model_is_source_slice_solve :
+  forall (T : Type) (O : Ops T) (a b : list T),
+    src_solve O (is_positive_definite O) (try_cholesky O) (cholesky_solve O) (lu_zs (Model.LU.lu O)) (lu_solve_zs (Model.LU.lu_solve O)) a b
+    = slice_solve O a b.
+Proof. intros. apply tiea_solve. Qed.
+(** [Matrix::inv]: [assert!(self.is_square()); self.solve(&Matrix::eye(self.nrows))] (regenerated from src/linalg/array/matrix.rs
+    by tools/tiea/det_loops.py), for every well-formed receiver and EVERY factorisation routines behind [Solve<Matrix>::solve] *)
+From Compute Require Import Generated.det_loops Proofs.TieA_det_loops.
+Theorem C01_model_is_source_matrix_inv :
+  forall (T : Type) (O : Ops T) (lu : list T -> option (list T * list nat)) (lu_solve : list T -> list nat -> list T -> option (list T))
+         (m : @matrix T), well_formed m = true ->
+    src_matrix_inv O (matrix_eye_z O) (msolve_mat_z O lu lu_solve) (dat m) (Z.of_nat (nr m)) (Z.of_nat (nc m))
+    = option_map (zmx (T := T)) (minv O lu lu_solve m).
+Proof. exact @tiea_matrix_inv. Qed.
